@@ -1,9 +1,14 @@
 import RbV.Basic.Codec
 import RbV.Ref.BS
+import RbV.Model.LFMapping
 /-! Driver for property C05: FM-index backward search.
 
 `c05 <s1>/<s2>/… a:<alphabet> k:<occ rate> s:<sa sampling> m:<o|b|a> <p1>/<p2>/… => <sa> <r1>/<r2>/…`
 text = every sequence followed by `$`;  `r` = `A` | `C:lo:hi:<occ full>:<occ sampled>` | `P:lo:hi:l:<occ full>:<occ sampled>`.
+
+The mirror model of `backward_search` (`BSModel.backwardSearch`, proved correct on sorted arrays:
+`RbV.Thm.C05.backward_search_correct`) is run on `less`/`occ` recomputed from the printed array; a result that differs
+from the implementation's is reported as tag `drift` (never a violation: the verdict is the property-level check).
 
 Verdict: every result is accepted by `checkBS` (theorem `RbV.Thm.C05.checkBS_iff`) against the printed suffix array,
 and the position lists produced by `Interval::occ` through the full and through the sampled array are, as sets,
@@ -64,6 +69,12 @@ def firstBad (t sa : List Nat) : List (List Nat) → List Obs → Nat → Option
     | none => firstBad t sa ps os (i + 1)
   | _, _, _ => none
 
+/-- does the mirror model, run on `less`/`occ` of the BWT of `(t, sa)`, return what the implementation returned? -/
+def modelAgrees (t sa : List Nat) (pats : List (List Nat)) (obs : List Obs) : Bool :=
+  let bwt := LF.bwtOf t sa
+  (pats.zip obs).all (fun (p, o) =>
+    BSModel.backwardSearch (LF.lessRef bwt) (LF.occRef bwt) sa.length p == o.res)
+
 def kindTag : BSRes → String
   | .complete _ _ => "complete"
   | .part _ _ _ => "partial"
@@ -92,7 +103,7 @@ def verdict (toks : List String) (out : String) : String :=
             | none =>
               let kinds := obs.map (fun o => kindTag o.res)
               let nt := (pats.zip obs).any (fun (p, o) => p.length ≥ 2 && o.res != .absent)
-              "ok" ++ tagIf nt "nt" ++ tagIf (kinds.contains "complete") "complete"
+              "ok" ++ tagIf nt "nt" ++ (if modelAgrees t sa pats obs then " model=impl" else " drift") ++ tagIf (kinds.contains "complete") "complete"
                 ++ tagIf (kinds.contains "partial") "partial" ++ tagIf (kinds.contains "absent") "absent"
                 ++ tagIf (seqs.length ≥ 2) "multi-sentinel" ++ tagIf (seqs.any (·.isEmpty)) "empty-seq"
                 ++ tagIf (kN > 64) "k>64" ++ tagIf (kN = 64) "k=64" ++ tagIf (kN < 64) "k<64"
